@@ -337,7 +337,7 @@ class Commit(object):
             # any encoding. Hence the use of 'universal_newlines=False' and an
             # explicit decoding that escapes symbols from unknown encodings.
             self._author = (
-                self._repo.cmd('git show --pretty="%%aN" %s', self.sha1,
+                self._repo.cmd('git show -s --pretty="%%aN" %s', self.sha1,
                                universal_newlines=False)
                 .decode('utf-8', 'backslashreplace')
                 .strip()
